@@ -297,6 +297,47 @@ def loop_requests(ctx, quick, k):
             out += x
         req.append(f"readdata1 {hexs(out)}")
         req.append(f"readdata1w {hexs(b''.join((rng.choice([b'C', b'D', b'I', b'N', b'', b'X']) + x) for x in out.split(b'#') if x).replace(b'D=', b'D#1='))}")
+    # ReadHeader (ReadTokenSeparator, FindHeaderSection, the loop over the header instances): `!`-entities, unknown and
+    # empty keywords, ENDSEC and its prefixes, strings and comments.  Keywords of the header dictionary are kept out: their
+    # STEPread is a hypothesis of the theorem (the file-level streams run it).
+    htoks = [b"HEADER;", b"ENDSEC", b";", b"K", b"!", b"(", b")", b" ", b"/*c*/", b"'s;'", b"\n", b"\\", b"&", b"E", b"\x00", b"X1(2);"]
+    for n in range(0, (2 if quick else 3) + 1):
+        for t in itertools.product(htoks, repeat=n):
+            req.append(f"readheader {hexs(b'HEADER;' + b''.join(t))}")
+            if n <= 2:
+                req.append(f"readheader {hexs(b''.join(t))}")
+    for _ in range(400 if quick else 4000):
+        req.append(f"readheader {hexs(b'HEADER;' + b''.join(rng.choice(htoks) for _ in range(rng.randrange(1, 14))))}")
+    # pass 1 of AppendFile as a whole (start keyword and its prefixes, header, DATA;, instances with fresh ids): stream
+    # position and instance count
+    starts = [b"ISO-10303-21;", b"ISO;", b"STEP_WORKING_SESSION;", b"X;", b"", b" ", b"/*c*/ISO-10303-21;\n", b"ISO-10303-21",
+              b"ISO-10303-21X;", b";", b"#", b"STEP "]
+    heads = [b"HEADER;", b"HEADER;K();", b"HEADER;!U(1);", b"", b"HEADER;\n/*c*/K ( 'a;' ) ;", b"HEAD;"]
+    ends = [b"ENDSEC;", b"", b"ENDSEC", b"ENDSEC ; "]
+    datas = [b"DATA;", b"DAT;", b"", b"DATA ;\n"]
+    ainsts = [b"#%d=POINT(1.0,2.0);", b"#%d=NOPE(1);", b"#%d=(A1(2.5)B1(.RED.));", b"#%d=KINDS();", b"junk;", b" C #%d=POINT(1.0,1.0);",
+              b" D #%d=POINT(1.0,1.0);", b"&SCOPE #%d=POINT(0.0,0.0); ENDSCOPE", b"ENDSEC;", b"END-ISO-10303-21;",
+              b"#%d=DPOINT((1.0,2.0));", b"#%d=POINT(", b"\n"]
+
+    def fresh(parts):
+        kk, out = 0, b""
+        for x in parts:
+            if b"%d" in x:
+                kk += 1
+                x = x % kk
+            out += x
+        return out
+    for a in starts:
+        for h in heads:
+            for e in ends:
+                for d in datas:
+                    req.append(f"append1 {hexs(a + h + e + d)}")
+                    if not quick or (a, h, e, d) == (starts[0], heads[0], ends[0], datas[0]):
+                        for x in ainsts:
+                            req.append(f"append1 {hexs(a + h + e + d + fresh([x]))}")
+    for _ in range(300 if quick else 5000):
+        req.append(f"append1 {hexs(rng.choice(starts[:3]) + rng.choice(heads[:3]) + b'ENDSEC;DATA;' + fresh([rng.choice(ainsts) for _i in range(rng.randrange(0, 8))]))}")
+        req.append(f"append1 {hexs(rng.choice(starts) + rng.choice(heads) + rng.choice(ends) + rng.choice(datas) + fresh([rng.choice(ainsts) for _i in range(rng.randrange(0, 5))]))}")
     # long inputs around the limits: comment length, getline count
     c, g = k["comment"], k["getlineN"]
     for n in around(c, c + 1, extra=[100, 3 * c]):
